@@ -9,11 +9,7 @@ import (
 	"go.uber.org/cff"
 )
 
-// Options produced by calls cff cannot resolve to a cff function: a function value and a user function.
-func F(ctx context.Context, mk func() cff.Option) error {
-	return cff.Parallel(ctx, mk(), cff.Task(func() {}))
-}
-
+// A Flow option produced by a call cff cannot resolve to a cff function (here a function value).
 func G(ctx context.Context, mk func() cff.Option) (int, error) {
 	var n int
 	err := cff.Flow(ctx, mk(), cff.Results(&n), cff.Task(func() int { return 1 }))
